@@ -129,9 +129,15 @@ class ServeManifest(RequestHandlerBase):
                 if pos != options.updateCount:
                     continue
             else:
+                if (
+                        not isinstance(pos, (datetime.time, datetime.datetime)) or
+                        not isinstance(options.availabilityStartTime, datetime.datetime)):
+                    # a time of day only selects a refresh of a live manifest
+                    continue
                 tm = options.availabilityStartTime.replace(
                     hour=pos.hour, minute=pos.minute, second=pos.second)
-                tm2 = tm + datetime.timedelta(seconds=options.minimumUpdatePeriod)
+                tm2 = tm + datetime.timedelta(
+                    seconds=(context['mpd'].minimumUpdatePeriod or 0))
                 if context['mpd'].now < tm or context['mpd'].now > tm2:
                     continue
             if (
